@@ -304,6 +304,9 @@ FIXED = [
     "fixed: property=C08 1dd43b0 named types of different kinds matched by name alone: data written as enum X read with a reader "
     "schema declaring record X raised KeyError('symbols'); data written as fixed X was returned unchanged to a reader expecting "
     "enum/record X (no schema-resolution error)",
+    "fixed: property=C08 1f35f09 read_union with return_named_type / return_record_name and a reader schema raised TypeError when the "
+    "union's named branch is inline on one side and by name on the other (writer [null, \"Foo\"] with Foo defined earlier, reader "
+    "[null, {Foo inline}], or the reverse); also C09 (named-type reporting)",
     "fixed: property=C18 6c01e0c read_decimal set the precision on a module-level decimal Context and then used it "
     "(schedule: A sets prec=9, B reads a precision-2 decimal, A resumes and returns 1.2E+6 for 1234567.89)",
 ]
